@@ -178,6 +178,8 @@ struct Model {
     open: [bool; 5],
     integrity_done: bool,
     time_step: u8,
+    /// an overflow indication asked for one more integrity poll: where in the order it runs is not stated
+    overflow_pending: bool,
 }
 
 async fn run_case(case: &Case) -> CaseOut {
@@ -233,8 +235,10 @@ async fn run_case(case: &Case) -> CaseOut {
         open: [false; 5],
         integrity_done: case.integrity.is_none(),
         time_step: 0,
+        overflow_pending: false,
     };
     let mut m = fresh(case);
+    let mut overflow_ever = false;
     rig.connect().await;
     let mut unsol_seq = 0u8;
     let mut pre_sent: Vec<Vec<u8>> = vec![];
@@ -305,7 +309,13 @@ async fn run_case(case: &Case) -> CaseOut {
             _ => None,
         };
         let continuing_time_sync = kind == Kind::Time && m.time_step > 0;
+        // the integrity poll an overflow indication asked for may run wherever the master puts it
+        let overflow_scan = kind == Kind::Integrity && m.overflow_pending && due != Some(2);
+        if overflow_scan {
+            out.label("integrity_poll_for_an_overflow");
+        }
         let ok_order = continuing_time_sync
+            || overflow_scan
             || sent_before_indication
             || match (ki, due) {
                 (Some(k), Some(d)) => k == d || (open_before.contains(&k) && k < d),
@@ -352,7 +362,9 @@ async fn run_case(case: &Case) -> CaseOut {
         // --- retry timing ---
         if let Some(kix) = ki {
             if let (n, Some(tf), at) = m.fails[kix] {
-                if n > 0 && !(kix == 3 && m.time_step > 0) {
+                // (an integrity poll that an overflow indication asked for may be a task of its own, with its own count of
+                // failures: once one has been asked for, the delays of integrity polls are not judged)
+                if n > 0 && !(kix == 3 && m.time_step > 0) && !(kix == 2 && overflow_ever) {
                     let want = delay_for(n);
                     out.label("retry_checked");
                     // the retry is due exactly then, unless a task of higher priority was in the way
@@ -401,8 +413,8 @@ async fn run_case(case: &Case) -> CaseOut {
                 if overflow && case.integrity.is_some() {
                     // another integrity poll is due (the gate for unsolicited data stays as it is)
                     out.label("overflow_indication_seen");
-                    m.need[2] = true;
-                    m.open[2] = false;
+                    m.overflow_pending = true;
+                    overflow_ever = true;
                 }
                 if *i1 & iin1::RESTART != 0 {
                     out.label("restart_seen");
@@ -500,6 +512,7 @@ async fn run_case(case: &Case) -> CaseOut {
                 m.time_step = 0;
                 if kix == 2 {
                     m.integrity_done = true;
+                    m.overflow_pending = false;
                 }
             } else if matches!(beh, Beh::Iin2Reject(_) | Beh::Iin2RejectWith(..))
                 && matches!(kix, 1 | 4)
@@ -586,6 +599,7 @@ async fn inject_after(
                 open: m.open,
                 integrity_done: m.integrity_done,
                 time_step: m.time_step,
+                overflow_pending: m.overflow_pending,
             };
             on_iin(&mut probe, case, *i1);
             let gated = *with_data && !probe.integrity_done;
